@@ -413,11 +413,11 @@ func confirmReplay(a OrchArgs, path string, race bool) (bool, string) {
 	}
 	var out []byte
 	for i := 0; i < attempts; i++ {
-		cmd := exec.Command(a.binFor(race, instr), "replay", path)
-		cmd.Env = workerEnv(race, "")
-		var err error
-		out, err = cmd.CombinedOutput()
-		if exitCodeOf(err) == 1 {
+		// (under the same time and memory guard as any single run: the tree under test may have turned
+		// the replayed run into one that does not come back)
+		exit, _, o := runOne(a, race, instr, []string{"replay", path}, 2*a.HangLimit)
+		out = []byte(o)
+		if exit == 1 {
 			return true, tail(string(out), 3000)
 		}
 	}
@@ -718,7 +718,20 @@ func shrinkCrash(a OrchArgs, rf *ReplayFile, path string, limit time.Duration) (
 		if ioutil.WriteFile(tmp, b, 0o644) != nil {
 			return false
 		}
-		rc, _ := replayCrashOnce(a.binFor(false, rf.Instr), a.binFor(true, rf.Instr), tmp, limit)
+		// (a candidate gets a fraction of the time a run may take before it counts as hung: a shortened
+		// tape that turns the crash into something slow is no use as a minimised crash, and forty
+		// candidates at the full limit would take hours)
+		candLimit := limit
+		if candLimit > 20*time.Second {
+			candLimit = 20 * time.Second
+		}
+		if left := 90*time.Second - time.Since(start); left < candLimit {
+			candLimit = left
+		}
+		if candLimit <= 0 {
+			return false
+		}
+		rc, _ := replayCrashOnce(a.binFor(false, rf.Instr), a.binFor(true, rf.Instr), tmp, candLimit)
 		if rc == 1 {
 			st.Accepted++
 			return true
